@@ -134,7 +134,12 @@ def run(ctx):
     for k in range(ctx.budget(60, 1500)):
         rr = rng.rint(2, 4)
         sub = rng.fork('n%d' % k)
-        line, meta = gen.gen_e2e(sub, 200000 + 2 * k, r=rr, maxit_max=30, trace=1)
+        if k % 4 == 3:
+            # a directed call whose in-membership argument has any shape on entry (never sized, left over from another network): what comes back is
+            # still the best realization's N x K matrix
+            line, meta = gen.gen_e2e_vshape(sub, 200000 + 2 * k, directed=True, r=rr, maxit_max=30, trace=1)
+        else:
+            line, meta = gen.gen_e2e(sub, 200000 + 2 * k, r=rr, maxit_max=30, trace=1)
         rp = rng.rint(1, rr)
         t2 = line.split()
         t2[1] = str(200000 + 2 * k + 1)
